@@ -249,6 +249,17 @@ example :
     (s3.pc = .done .ok 30 ∧ s3.slot = .none ∧ s3.tr = .closed ∧ s3.pooled = false) := by
   decide +kernel
 
+/-- kernel-checked: https, `sock_connect = 2.5 s`, the peer accepts TCP at 613 ms and stalls the TLS
+handshake: `ConnectionTimeoutError` at 2503 ms (the handshake is inside the same sock_connect
+window as the TCP connect), slot freed, socket closed; with the handshake completing at 700 ms the
+request proceeds -/
+example :
+    let c : Cfg := { sockConnect := some 2500, https := true }
+    let s := observe c (run c (init false) [(3, [.startR]), (613, [.connDone 0])])
+    let s' := run c (init false) [(3, [.startR]), (613, [.connDone 0]), (700, [.tlsDone 0])]
+    s.pc = .done .connTimeout 2503 ∧ s.slot = .none ∧ s.closedSocks = 1 ∧ s'.pc = .headers ∧ s'.slot = .proto := by
+  decide +kernel
+
 /-! ## others are unaffected -//-! ## others are unaffected -/
 
 /-- what R's own transitions may do to the co-request and the shared lookup: nothing, or
